@@ -140,13 +140,15 @@ def explore(ctx):
             # cannot re-read (AttributeError: charset) -- environment limit (DESIGN, observation O1)
             flavor = "ttf"
         lib = "ufoLib2" if i % 3 else "defcon"
-        vertical = rng.random() < 0.3
+        vertical = rng.random() < 0.3 or i % 5 == 3
+        if i % 5 == 3 and not (len(desc["glyphs"]) == 1 and desc["glyphs"][0]["name"] == ".notdef"):
+            flavor = "otf"          # VORG exists in CFF-flavoured fonts only
         info = {}
         if vertical:
             info = {"openTypeVheaVertTypoAscender": 500, "openTypeVheaVertTypoDescender": -500, "openTypeVheaVertTypoLineGap": 0}
             for g in desc["glyphs"]:
                 g["height"] = Fr(rng.choice([1000, 1000, 800]))
-            if rng.random() < 0.7:
+            if rng.random() < 0.7 or i % 5 == 3:
                 # explicit vertical origins (public.verticalOrigin) on some glyphs, the rest fall back to sTypoAscender
                 pool = rng.choice([[880, 880, 880, None], [880, 800, None, None], [750.5, 880, None], [880, 880, 700, 800, None]])
                 for g in desc["glyphs"]:
